@@ -15,6 +15,7 @@ Definition d_atom (t : tree) : option atom :=
   | L [I 3; i] => obind (as_nat i) (fun i => Some (AExc i))
   | L [I 4; i] => obind (as_nat i) (fun i => Some (APar i))   (* bindparam(name) *)
   | L [I 5; i] => obind (as_nat i) (fun i => Some (APar i))   (* bindparam(name, None): same to the compiler *)
+  | L [I 6; i] => obind (as_nat i) (fun i => Some (APar i))   (* bindparam(name, default) supplied by every parameter set *)
   | _ => None
   end.
 Definition d_expr (t : tree) : option expr :=
